@@ -82,23 +82,7 @@ func (p gocvProv) Memory(key expr.Key, addr model.Addr, w expr.Width) expr.Const
 	return expr.NewConst(bs, w)
 }
 
-const gocvBase = 0x1000
-
-func r(k string) expr.Expr                  { return expr.NewRegLoad(expr.Key(k), 8) }
-func c(v uint64) expr.Expr                  { return expr.NewConstUint(v, 8) }
-func bin(x, y expr.Expr) expr.Expr          { return expr.NewBinary(expr.Add, x, y, 8) }
-func ml(k string, a expr.Expr, w expr.Width) expr.Expr { return expr.NewMemLoad(expr.Key(k), a, w) }
-func rs(v expr.Expr, k expr.Key) expr.Effect { return expr.NewRegStore(v, k, 8) }
-func ms(v expr.Expr, k string, a expr.Expr, w expr.Width) expr.Effect {
-	return expr.NewMemStore(v, expr.Key(k), a, w)
-}
-func fx(es ...expr.Effect) []expr.Effect { return es }
-
-func mk(i int, typ uint64, f func(a, t uint64) []expr.Effect) parser.Instruction {
-	a := uint64(gocvBase + 4*i)
-	return parser.Instruction{Type: model.Type(typ), Addr: model.Addr(a), Bytes: []byte{0x10, 0x11, 0x12, 0x13}, Effects: f(a, gocvBase), Details: gocvDetails{}}
-}
-
+` + irHelpersSrc + `
 func gocvSeq() []parser.Instruction {
 	return []parser.Instruction{
 ` + strings.Join(ins, "\n") + `
@@ -155,3 +139,23 @@ func TestGocvReplay(t *testing.T) {
 		return replayVerdict(c.P.RepoDir, "internal/emulator", src)
 	}
 }
+
+// irHelpersSrc: helpers of the generated tests that build lifted instructions.
+const irHelpersSrc = `const gocvBase = 0x1000
+
+func r(k string) expr.Expr                  { return expr.NewRegLoad(expr.Key(k), 8) }
+func c(v uint64) expr.Expr                  { return expr.NewConstUint(v, 8) }
+func bin(x, y expr.Expr) expr.Expr          { return expr.NewBinary(expr.Add, x, y, 8) }
+func ml(k string, a expr.Expr, w expr.Width) expr.Expr { return expr.NewMemLoad(expr.Key(k), a, w) }
+func rs(v expr.Expr, k expr.Key) expr.Effect { return expr.NewRegStore(v, k, 8) }
+func ms(v expr.Expr, k string, a expr.Expr, w expr.Width) expr.Effect {
+	return expr.NewMemStore(v, expr.Key(k), a, w)
+}
+func fx(es ...expr.Effect) []expr.Effect { return es }
+
+func mk(i int, typ uint64, f func(a, t uint64) []expr.Effect) parser.Instruction {
+	a := uint64(gocvBase + 4*i)
+	return parser.Instruction{Type: model.Type(typ), Addr: model.Addr(a), Bytes: []byte{0x10, 0x11, 0x12, 0x13}, Effects: f(a, gocvBase), Details: gocvDetails{}}
+}
+
+`
